@@ -456,10 +456,11 @@ Lemma copy_construct_ok src d l : data src = Some d -> Inv src -> Abs src l ->
   bad x = false /\ Inv (buf x) /\ Abs (buf x) l /\ data (buf x) <> None /\
   max_size (buf x) = max_size src /\ cap (buf x) = cap src.
 Proof.
-  intros Hd HI HA. unfold copy_construct. rewrite HA.
+  intros Hd HI HA. unfold copy_construct, copy_construct_with, block. rewrite HA.
   assert (max_size src < cap src /\ size src <= max_size src) as [Hm Hs]
     by (unfold Inv in HI; rewrite Hd in HI; tauto).
   pose proof (Abs_length _ _ HA) as L.
+  destruct (cap src =? 0) eqn:Ez; [apply Nat.eqb_eq in Ez; lia|].
   set (r0 := {| max_size := max_size src; cap := cap src; data := Some (repeat None (cap src)); rbegin := 0; rend := 0 |}).
   assert (Inv r0) as I0 by (apply Inv_fresh; lia).
   assert (Abs r0 []) as A0 by (apply Abs_fresh; lia).
@@ -474,11 +475,12 @@ Lemma copy_assign_ok dst dd dl src d l :
   bad x = false /\ Inv (buf x) /\ Abs (buf x) l /\ data (buf x) <> None /\
   max_size (buf x) = max_size src /\ cap (buf x) = cap src.
 Proof.
-  intros Hdd HId HAd Hd HI HA. unfold copy_assign.
+  intros Hdd HId HAd Hd HI HA. unfold copy_assign, copy_assign_with, block.
   destruct (clear_ok dst dd dl Hdd HId HAd) as (B & I1 & A1 & D1 & M1 & C1 & Z1).
   rewrite B. cbn [orb]. rewrite HA.
   assert (max_size src < cap src /\ size src <= max_size src) as [Hm Hs]
     by (unfold Inv in HI; rewrite Hd in HI; tauto).
+  destruct (cap src =? 0) eqn:Ez; [apply Nat.eqb_eq in Ez; lia|].
   pose proof (Abs_length _ _ HA) as L.
   rewrite (empty_all_raw _ I1 Z1). rewrite andb_false_r.
   destruct (cap (buf (clear dst)) =? cap src) eqn:Ec; cbn [negb].
@@ -516,7 +518,7 @@ Lemma copy_assign_none_ok dst src d l :
   bad x = false /\ Inv (buf x) /\ Abs (buf x) l /\ data (buf x) <> None /\
   max_size (buf x) = max_size src /\ cap (buf x) = cap src.
 Proof.
-  intros Hdn E C0 Hd HI HA. unfold copy_assign.
+  intros Hdn E C0 Hd HI HA. unfold copy_assign, copy_assign_with, block.
   assert (clear dst = {| buf := dst; bad := false |}) as CL.
   { unfold clear. rewrite C0. simpl. rewrite E, Nat.eqb_refl. reflexivity. }
   rewrite CL. cbn [buf bad orb]. rewrite HA.
@@ -525,6 +527,7 @@ Proof.
   pose proof (Abs_length _ _ HA) as L.
   assert (all_raw dst = true) as AR by (unfold all_raw; rewrite Hdn; reflexivity).
   rewrite AR, C0. rewrite andb_false_r.
+  destruct (cap src =? 0) eqn:Ez; [apply Nat.eqb_eq in Ez; lia|].
   destruct (0 =? cap src) eqn:Ec; [apply Nat.eqb_eq in Ec; lia|]. cbn [negb].
   set (r0 := {| max_size := max_size src; cap := cap src; data := Some (repeat None (cap src)); rbegin := 0; rend := 0 |}).
   assert (Inv r0) as I0 by (apply Inv_fresh; lia).
